@@ -641,6 +641,17 @@ func (g *Global) genVCpass(fn *ssa.Function, contract *Contract, C *Ctx) (vc *Fn
 			}
 			tr.assume("true", t)
 		}
+		if !contract.Assumed {
+			// `calls h` on a function that is verified: at entry h has not run
+			for _, hn := range contract.Calls {
+				if p, ok := fr.params[hn]; ok {
+					if sig, isSig := p.Ty.Underlying().(*types.Signature); isSig {
+						ranK, _ := tr.cbKeys(hn, sig.Results())
+						tr.assume("true", not(sel(C.hget(fr.entryH, ranK), "0")))
+					}
+				}
+			}
+		}
 		for _, u := range contract.Uses {
 			ax := g.contracts.Preds[contract.PkgPath+".axiom "+u]
 			if ax == nil {
